@@ -510,7 +510,9 @@ package diff
 //@ ensures old(schema1.Properties == nil && schema2.Properties == nil) ==> len(result) == 0
 //@ loop 1 step !vs_has(schema2Props, eachProp1Name) ==> len(propDiffs) == old(len(propDiffs))+1 && propDiffs[len(propDiffs)-1].Code == DeletedProperty
 //@ loop 1 step vs_has(schema2Props, eachProp1Name) ==> vs_called("cmp")
+//@ loop 3 invariant @C12 schema1 == schema2 ==> vs_eq(schema1.Properties, vs_ranged[spec.SchemaProperties](2))
 //@ loop 3 step vs_has(schema1.Properties, eachProp2Name) ==> len(propDiffs) == old(len(propDiffs))
+//@ loop 3 step @C12 schema1 == schema2 ==> len(propDiffs) == old(len(propDiffs))
 //@ loop 3 step !vs_has(schema1.Properties, eachProp2Name) && schema2Props[eachProp2Name].Required ==> len(propDiffs) == old(len(propDiffs))+1 && propDiffs[len(propDiffs)-1].Code == AddedRequiredProperty
 //@ loop 3 step !vs_has(schema1.Properties, eachProp2Name) && !schema2Props[eachProp2Name].Required ==> len(propDiffs) == old(len(propDiffs))+1 && propDiffs[len(propDiffs)-1].Code == AddedProperty
 
